@@ -344,26 +344,46 @@ Qed.
 Definition tape_valid (ms : list (cmode R)) : Prop :=
   Forall (fun m => norms_valid (mA m) (nA m) /\ norms_valid (mB m) (nB m)) ms.
 
-Lemma congruence_inv absv As Bs nas nbs assign v p :
-  congruence Rops absv As Bs nas nbs assign = Ok (v, p) -> tape_valid (zip_modes As Bs nas nbs) ->
-  let r := ncols (hd [] As) in let C := cong_all Rops absv r (zip_modes As Bs nas nbs) in
-  Forall (mode_ok r) (zip_modes As Bs nas nbs) /\ p = assign C /\ v = score Rops r C p.
+Lemma cong_matrix_inv absv As Bs nas nbs r C :
+  cong_matrix Rops absv As Bs nas nbs = Ok (r, C) ->
+  r = ncols (hd [] As) /\ C = cong_all Rops absv r (zip_modes As Bs nas nbs) /\
+  forall m, In m (zip_modes As Bs nas nbs) -> ncols (mA m) = r /\ ncols (mB m) = r /\ nrows (mA m) = nrows (mB m).
 Proof.
-  unfold congruence. intros H Ht.
+  unfold cong_matrix. intros H.
   destruct (negb (length As =? length Bs)%nat); [discriminate|].
   destruct As as [|A0 As']; [discriminate|]. cbn [hd]. set (As := A0 :: As') in *.
   destruct (forallb (fun M => (ncols M =? ncols A0)%nat) (As ++ Bs)) eqn:E1; [|discriminate]. cbn [negb] in H.
   destruct (forallb (fun ab => (nrows (fst ab) =? nrows (snd ab))%nat) (combine As Bs)) eqn:E2; [|discriminate]. cbn [negb] in H.
   destruct (existsb (has_zero_col Rops) (As ++ Bs)); [discriminate|].
-  inversion H; subst. cbv zeta. split; [|split; reflexivity].
-  rewrite forallb_forall in E1, E2. apply Forall_forall. intros m Hm.
-  unfold tape_valid in Ht. rewrite Forall_forall in Ht. specialize (Ht m Hm). destruct Ht as (Va & Vb).
+  inversion H; subst. split; [reflexivity|]. split; [reflexivity|].
+  rewrite forallb_forall in E1, E2. intros m Hm.
   pose proof (zip_modes_in _ _ _ _ _ Hm) as Hin.
   pose proof (in_combine_l _ _ _ _ Hin) as Ha. pose proof (in_combine_r _ _ _ _ Hin) as Hb.
   specialize (E2 _ Hin). cbn [fst snd] in E2. apply Nat.eqb_eq in E2.
   assert (Ea : ncols (mA m) = ncols A0) by (apply Nat.eqb_eq; apply E1; apply in_or_app; left; exact Ha).
   assert (Eb : ncols (mB m) = ncols A0) by (apply Nat.eqb_eq; apply E1; apply in_or_app; right; exact Hb).
-  exact (conj Ea (conj Eb (conj E2 (conj Va Vb)))).
+  auto.
+Qed.
+
+Lemma congruence_unfold absv As Bs nas nbs assign v p :
+  congruence Rops absv As Bs nas nbs assign = Ok (v, p) ->
+  exists r C, cong_matrix Rops absv As Bs nas nbs = Ok (r, C) /\ p = assign C /\ v = score Rops r C p.
+Proof.
+  unfold congruence. destruct (cong_matrix Rops absv As Bs nas nbs) as [[r C]|]; [|discriminate].
+  cbv zeta. intros H. inversion H; subst. exists r, C. auto.
+Qed.
+
+Lemma congruence_inv absv As Bs nas nbs assign v p :
+  congruence Rops absv As Bs nas nbs assign = Ok (v, p) -> tape_valid (zip_modes As Bs nas nbs) ->
+  let r := ncols (hd [] As) in let C := cong_all Rops absv r (zip_modes As Bs nas nbs) in
+  Forall (mode_ok r) (zip_modes As Bs nas nbs) /\ p = assign C /\ v = score Rops r C p.
+Proof.
+  intros H Ht. destruct (congruence_unfold _ _ _ _ _ _ _ _ H) as (r & C & Hc & Hp & Hv).
+  destruct (cong_matrix_inv _ _ _ _ _ _ _ Hc) as (Er & EC & Hs). cbv zeta. subst r. rewrite <- EC.
+  split; [|split; assumption].
+  apply Forall_forall. intros m Hm.
+  unfold tape_valid in Ht. rewrite Forall_forall in Ht. destruct (Ht m Hm) as (Va & Vb).
+  destruct (Hs m Hm) as (Ea & Eb & En). exact (conj Ea (conj Eb (conj En (conj Va Vb)))).
 Qed.
 
 Theorem congruence_range absv As Bs nas nbs assign v p :
@@ -379,11 +399,8 @@ Lemma congruence_ok_inv absv As Bs nas nbs assign v p :
   let r := ncols (hd [] As) in let C := cong_all Rops absv r (zip_modes As Bs nas nbs) in
   p = assign C /\ v = score Rops r C p.
 Proof.
-  unfold congruence. intros H.
-  destruct (negb (length As =? length Bs)%nat); [discriminate|].
-  destruct As as [|A0 As']; [discriminate|]. cbn [hd]. set (As := A0 :: As') in *.
-  destruct (negb (forallb _ _)); [discriminate|]. destruct (negb (forallb _ _)); [discriminate|].
-  destruct (existsb _ _); [discriminate|]. inversion H; subst. cbv zeta. split; reflexivity.
+  intros H. destruct (congruence_unfold _ _ _ _ _ _ _ _ H) as (r & C & Hc & Hp & Hv).
+  destruct (cong_matrix_inv _ _ _ _ _ _ _ Hc) as (Er & EC & _). cbv zeta. subst r. rewrite <- EC. auto.
 Qed.
 
 Theorem congruence_is_max absv As Bs nas nbs assign v p :
